@@ -387,7 +387,7 @@ Theorem C15_cc_hardstate_monotone : forall boot page1 x x', cxstep boot page1 x 
 Proof.
   intros boot page1 x x' H y. destruct H as [id ev extra _ _]. cbn [cx_nodes].
   destruct (Nat.eq_dec y id) as [->|Hy]; [rewrite RaftInvBase.upd_same|rewrite RaftInvBase.upd_other by exact Hy; split; [lia|split; [lia|intros _; left; reflexivity]]].
-  destruct (cx_nodes x id) as [n pend]. destruct (exec_cc_hs_mono boot page1 id ev n pend) as (H1 & H2 & H3).
+  destruct (cx_nodes x id) as [n pend]. destruct (exec_cce_hs_mono boot page1 id ev n pend) as (H1 & H2 & H3).
   cbn [fst]. split; [exact H1|split; [exact H3|exact H2]].
 Qed.
 Print Assumptions C15_cc_hardstate_monotone.
@@ -445,6 +445,32 @@ Theorem C15_cc_at_most_one_uncommitted_conf_change_partial : forall F boot page1
     isconf (snd e) = true -> isconf (snd e') = true -> S j <= n_commit (fst (cx_nodes x y)).
 Proof. intros F boot page1 HF x Hx. exact (cc_at_most_one_uncommitted F HF boot page1 x Hx). Qed.
 Print Assumptions C15_cc_at_most_one_uncommitted_conf_change_partial.
+
+(* BATCHED PROPOSALS.  A step of [cxstep] is one event of RaftModel or one MsgProp carrying several
+   entries ([CBatch ps], RaftCC.exec_batch): stepLeader examines the entries in order, an admitted
+   configuration change at position i sets pendingConfIndex to lastIndex + i + 1 — so a later change
+   of the same proposal, and any change proposed before that index is applied, is replaced by an
+   empty entry — and all entries are appended at once.  The theorem above is about [cxreachableF],
+   hence about runs with such batches; the step itself, on any node value: whatever the positions of
+   the configuration changes among the entries of one proposal, a node that respects the
+   pendingConfIndex discipline and holds at most one uncommitted change still does afterwards. *)
+Theorem C15_cc_batched_proposal_keeps_one_uncommitted : forall id c ps n pend,
+  PD n pend -> cc_ok (n_log n) (n_commit n) ->
+  PD (fst (batch_cc id c ps n pend)) (snd (batch_cc id c ps n pend)) /\
+  cc_ok (n_log (fst (batch_cc id c ps n pend))) (n_commit (fst (batch_cc id c ps n pend))).
+Proof. intros id c ps n pend H1 H2. exact (batch_cc_nok id c ps n pend H1 H2). Qed.
+Print Assumptions C15_cc_batched_proposal_keeps_one_uncommitted.
+
+(* pendingConfIndex of a batch is lastIndex + i + 1 (model index of the admitted change), and the
+   second change of one proposal becomes an empty entry: leader 1 of {1,2,3} at term 1 with log
+   [(1,0)] gets [7; remove 3; remove 2] in one proposal *)
+Example C15_ex_batch :
+  let l := fst (fst (exec_cc (mkC [1] [] false []) false 1 EvCampaign (init_node, 0))) in
+  let l3 := set_commit 1 l in
+  let r := batch_cc 1 (mkC [1; 2; 3] [] false []) [7; 113; 112] l3 1 in
+  n_role l3 = Leader /\ n_log l3 = [(1, 0)] /\
+  n_log (fst r) = [(1, 0); (1, 7); (1, 113); (1, 0)] /\ snd r = 3.
+Proof. vm_compute. repeat split. Qed.
 
 (* ingredient (b) along a log, for any log at all: the configurations after a prefix P and after
    P ++ S, S holding at most one configuration-change entry, are equal or one change apart, so all
@@ -560,13 +586,13 @@ Print Assumptions C15_cc_prefix_distance.
 Definition ccx_boot : conf := mkC [1; 2; 3] [] false [].
 Definition ccx_app : msg := mkMsg MsgApp 1 2 1 0 0 [(1, 0); (1, 104)] 0 false.
 Definition ccx_ack : msg := mkMsg MsgAppResp 2 1 1 0 2 [] 0 false.
-Definition ccx_trace : list (nat * event * list msg) :=
-  [ (1, EvCampaign, [ex_vote 2; ex_vote 3]);
-    (2, EvRecv (ex_vote 2), []);
-    (1, EvRecv ex_grant, []);
-    (1, EvPropose 104, [ccx_app]);
-    (2, EvRecv ccx_app, []);
-    (1, EvRecv ccx_ack, []) ].
+Definition ccx_trace : list (nat * cevent * list msg) :=
+  [ (1, CEv EvCampaign, [ex_vote 2; ex_vote 3]);
+    (2, CEv (EvRecv (ex_vote 2)), []);
+    (1, CEv (EvRecv ex_grant), []);
+    (1, CEv (EvPropose 104), [ccx_app]);
+    (2, CEv (EvRecv ccx_app), []);
+    (1, CEv (EvRecv ccx_ack), []) ].
 
 Example C15_ex_cc_run : exists x,
   cxreachable ccx_boot false x /\
